@@ -524,11 +524,11 @@ func c07run(cs *c07case, src c07src) (obs []c07obs, fails [][2]string) {
 			switch {
 			case it == nil:
 				if !(o.class == 2 && o.code == cs.End) {
-					addFail("C07/end-of-stream-not-reported", fmt.Sprintf("Recv #%d at the end of the stream: class %d code %d", r, o.class, o.code))
+					addFail("C07/end-of-stream-not-reported"+suffix, fmt.Sprintf("Recv #%d at the end of the stream: class %d code %d", r, o.class, o.code))
 				}
 			case tooBig(it):
 				if o.class != 1 && it.Len >= 8 {
-					addFail("C07/oversize-not-rejected", fmt.Sprintf("Recv #%d class %d on a header announcing %d > max %d", r, o.class, it.Announced, cs.Max))
+					addFail("C07/oversize-not-rejected"+suffix, fmt.Sprintf("Recv #%d class %d on a header announcing %d > max %d", r, o.class, it.Announced, cs.Max))
 				}
 			case it.Kind == "msg":
 				if o.class != 0 {
@@ -536,13 +536,13 @@ func c07run(cs *c07case, src c07src) (obs []c07obs, fails [][2]string) {
 				}
 			case it.Kind == "badtype":
 				if o.class != 1 {
-					addFail("C07/undecodable-frame-result", fmt.Sprintf("Recv #%d class %d on a well-framed undecodable item", r, o.class))
+					addFail("C07/undecodable-frame-result"+suffix, fmt.Sprintf("Recv #%d class %d on a well-framed undecodable item", r, o.class))
 				} else if consumed != it.Len {
 					addFail("C07/consumed-not-exact", fmt.Sprintf("Recv #%d consumed %d bytes for a %d byte item", r, consumed, it.Len))
 				}
 			case it.Kind == "cut":
 				if !(o.class == 2 && o.code == cs.End) {
-					addFail("C07/truncated-result", fmt.Sprintf("Recv #%d class %d code %d on a truncated item", r, o.class, o.code))
+					addFail("C07/truncated-result"+suffix, fmt.Sprintf("Recv #%d class %d code %d on a truncated item", r, o.class, o.code))
 				}
 			}
 		}
@@ -994,7 +994,7 @@ func c07gen(c *h.Ctx) []c07case {
 		}
 	}
 	// E. random streams and random schedules (including faults and empty reads)
-	nrand := c.Pick(2500, 40000)
+	nrand := c.Pick(5000, 60000)
 	for i := 0; i < nrand; i++ {
 		r := c.Rng.Fork(uint64(1000 + i))
 		b := &c07builder{}
@@ -1147,7 +1147,13 @@ func driveC07(c *h.Ctx) error {
 	}
 	var rows [][]byte
 	var rowCase []map[string]any
+	nfailed := 0
 	for i := range cases {
+		if nfailed >= 25 {
+			// the implementation is badly broken: enough evidence, do not run the remaining cases
+			c.Extra("stopped_after_failures", i)
+			break
+		}
 		cs := &cases[i]
 		var src c07src
 		if cs.Std != "" {
@@ -1196,6 +1202,9 @@ func driveC07(c *h.Ctx) error {
 		}
 		for _, f := range fails {
 			c.Fail(f[0], f[1], caseJSON)
+		}
+		if len(fails) > 0 {
+			nfailed++
 		}
 		// row for the model
 		if cs.NoRow {
